@@ -668,7 +668,7 @@ func TestC16(t *testing.T) {
 		"actors never issue a command while another command of the same actor is outstanding; the harness damages files only while nobody holds the directory",
 		"child processes are re-executions of the test binary talking a line protocol on stdin/stdout; a child that does not answer within 120 s makes the run inconclusive, not a violation")
 	defer finishProperty(st)
-	rapid.Check(t, func(t *rapid.T) {
+	checkCases(t, st, func(t *rapid.T) {
 		c := &c16Case{Property: "C16", Kind: "c16", Children: 2 + kvh.U(t, 2, "children")}
 		n := 4 + kvh.U(t, 17, "nsteps")
 		for i := 0; i < n; i++ {
